@@ -357,15 +357,25 @@ impl Check for C19 {
                                 _ => "/",
                             };
                             lines.push(Line { expr: format!("v{} {} v{}", i, op, j), expect: Some(show(&r)), key: (i, j, name) });
+                            // printing rounds floats to 14 digits: the exact value is checked inside the program
+                            if let Some(l) = exact_lit(&r) {
+                                lines.push(Line { expr: format!("(v{} {} v{}) == {}", i, op, j, l), expect: Some("true".into()), key: (i, j, "exact") });
+                            }
                         }
                     }
                 }
             }
             // tuple / number
             if let (true, Ty::T(_)) = (num, &t) {
-                let d = if homogeneous_leaf(&t) == Some(Ty::I) { V::I(2) } else { V::F(2.0) };
-                if let Some(r) = arith('/', &vals[i], &d) {
-                    lines.push(Line { expr: format!("v{} / {}", i, lit(&d)), expect: Some(show(&r)), key: (i, i, "/n") });
+                // divisors that are not powers of two (a reciprocal-multiplication shortcut is not exact for them)
+                for dk in [3i64, 7, 49, 2] {
+                    let d = if homogeneous_leaf(&t) == Some(Ty::I) { V::I(dk) } else { V::F(dk as f64) };
+                    if let Some(r) = arith('/', &vals[i], &d) {
+                        lines.push(Line { expr: format!("v{} / {}", i, lit(&d)), expect: Some(show(&r)), key: (i, dk as usize, "/n") });
+                        if let Some(l) = exact_lit(&r) {
+                            lines.push(Line { expr: format!("(v{} / {}) == {}", i, lit(&d), l), expect: Some("true".into()), key: (i, dk as usize, "exact/n") });
+                        }
+                    }
                 }
             }
         }
@@ -543,6 +553,33 @@ impl Check for C19 {
             exhaustive: false,
             inconclusive,
         }
+    }
+}
+
+/// a literal that denotes exactly this value (floats: shortest round-trip text without exponent), if there is one
+fn exact_lit(v: &V) -> Option<String> {
+    fn ok(v: &V) -> bool {
+        match v {
+            V::F(f) => {
+                let t = format!("{:?}", f.abs());
+                f.is_finite() && !t.contains('e') && !t.contains("inf") && t.parse::<f64>().ok() == Some(f.abs())
+            }
+            V::T(xs) => xs.iter().all(ok),
+            V::I(_) => true,
+            _ => false,
+        }
+    }
+    fn has_float(v: &V) -> bool {
+        match v {
+            V::F(_) => true,
+            V::T(xs) => xs.iter().any(has_float),
+            _ => false,
+        }
+    }
+    if ok(v) && has_float(v) {
+        Some(lit(v))
+    } else {
+        None
     }
 }
 
